@@ -125,7 +125,7 @@ func variant(r *vh.Rng, seed Case) Case {
 	c.Origin = "search"
 	for k := 1 + r.Intn(3); k > 0; k-- {
 		ref, _ := refList(&c, c.Args)
-		switch r.Intn(16) {
+		switch r.Intn(17) {
 		case 0:
 			c.Args.After = moveCursor(r, ref, c.Args.After)
 		case 1:
@@ -293,6 +293,11 @@ func variant(r *vh.Rng, seed Case) Case {
 				for k := int(c.Items[i].U % 3); k > 0; k-- {
 					c.Items[i].F = math.Nextafter(c.Items[i].F, math.Inf(1))
 				}
+			}
+		case 15: // case-folding letters in a node text and in the filter text
+			if len(c.Items) > 0 {
+				c.Items[r.Intn(len(c.Items))].T[r.Intn(3)] = foldWord(r, 3)
+				c.Args.FilterText, c.Args.FilterType = pstr(foldWord(r, 2)), nil
 			}
 		default: // text attribute edit: copy the filter text's first token into an element, in another case
 			if len(c.Items) > 0 && c.Args.FilterText != nil {
